@@ -6,7 +6,8 @@ use std::io::Write;
 use std::path::PathBuf;
 
 fn hp(p: &std::path::Path) -> String {
-    hex(p.to_str().unwrap().as_bytes())
+    use std::os::unix::ffi::OsStrExt;
+    hex(p.as_os_str().as_bytes())
 }
 fn ek(e: &RvError) -> String {
     crate::pure::errkind(e)
@@ -87,7 +88,11 @@ fn lines_arg(h: &str) -> Vec<String> {
 // one operation against any VirtualFileSystem value
 pub fn apply<V: VirtualFileSystem>(vfs: &V, op: &str) -> String {
     let f: Vec<&str> = op.split(':').collect();
-    let a = |i: usize| -> String { unhex_s(f.get(i).copied().unwrap_or("")) };
+    // path arguments are byte strings: a path need not be UTF-8
+    let a = |i: usize| -> PathBuf {
+        use std::os::unix::ffi::OsStringExt;
+        PathBuf::from(std::ffi::OsString::from_vec(unhex(f.get(i).copied().unwrap_or(""))))
+    };
     match f[0] {
         "abs" => r_path(vfs.abs(a(1))),
         "exists" => r_bool(vfs.exists(a(1))),
